@@ -1184,7 +1184,7 @@ static int parse_container(struct scanner_s *scanner, cif_container_tp *containe
                     goto container_end;
                 }
                 /* recover by pushing back the colon */
-                scanner->next_char -= 1;
+                BACK_UP(scanner);
                 scanner->ttype = alt_ttype;  /* TVALUE or QVALUE */
 
                 /* notify the configured whitespace callback, if any, of zero-length whitespace */
@@ -1285,7 +1285,7 @@ static int parse_item(struct scanner_s *scanner, cif_container_tp *container, UC
                     break;
                 }
                 /* recover by pushing back the colon */
-                scanner->next_char -= 1;
+                BACK_UP(scanner);
                 scanner->ttype = alt_ttype;  /* TVALUE or QVALUE */
 
                 /* notify the configured whitespace callback, if any, of zero-length whitespace */
@@ -1606,7 +1606,7 @@ static int parse_loop_packets(struct scanner_s *scanner, cif_loop_tp *loop, stri
                                 goto packets_end;
                             }
                             /* recover by pushing back the colon */
-                            scanner->next_char -= 1;
+                            BACK_UP(scanner);
                             scanner->ttype = alt_ttype;  /* TVALUE or QVALUE */
 
                             /* notify the configured whitespace callback, if any, of zero-length whitespace */
@@ -1818,7 +1818,7 @@ static int parse_list(struct scanner_s *scanner, cif_value_tp **listp) {
                     goto list_end;
                 }
                 /* recover by pushing back the colon */
-                scanner->next_char -= 1;
+                BACK_UP(scanner);
                 scanner->ttype = alt_ttype;  /* TVALUE or QVALUE */
 
                 /* notify the configured whitespace callback, if any, of zero-length whitespace */
@@ -2509,6 +2509,7 @@ static int next_token(struct scanner_s *scanner) {
                                  * always whitespace
                                  */
                                 scanner->next_char += 1;
+                                POSN_INCCOLUMN(scanner, 1);
                                 ttype = KEY;
                                 break;
                             }
@@ -2533,6 +2534,7 @@ static int next_token(struct scanner_s *scanner) {
                                 if (c == UCHAR_COLON) {
                                     /* Not diagnosed as an error _here_ */
                                     scanner->next_char += 1;
+                                    POSN_INCCOLUMN(scanner, 1);
                                     ttype = TKEY;
                                 }
                             } else if (result == CIF_EOF) {
